@@ -15,7 +15,7 @@ per case by the harness, not modelled), `normaliseL` the documented normal form 
 The tables (`liveClsInfo`, `htmlRegistry`, `xmlRegistry`, `livePCfg`) are generated from the live objects on
 every run. -/
 namespace BS.Props.C05
-open BS.Render BS.Gen.Render
+open BS.Render BS.Gen.C05
 
 /-- the formatter object a registry entry describes, given the function its code stands for -/
 def mkFmt (g : Nat → Option (PStr → PStr)) (s : FmtSpec) : Fmt := ⟨g s.substKind, s.voidPrefix, s.cdataTags, s.emptyBool⟩
@@ -281,8 +281,8 @@ theorem txt_chunking (p : PCfg) (ctx : Ctx) (b : List PStr) (x y : PStr) :
 /-! ## 6. idempotence of the normal form -/
 
 /-- `DoctypeStable`: no doctype of the forest is followed by text that is not ASCII whitespace, and none stands inside
-    a preserve-whitespace element (`<pre>`, `<textarea>`) — exactly the inputs outside known finding
-    `C05-doctype-newline-accumulates`. Explicit and decidable (`dstableL`, Proofs/ReparseIdem.lean). -/
+    a preserve-whitespace element (`<pre>`, `<textarea>`) — the inputs of known finding
+    `C05-doctype-newline-accumulates` are the ones it excludes. Explicit and decidable (`dstableL`, Proofs/ReparseIdem.lean). -/
 abbrev DoctypeStable (p : PCfg) (ds : List Node) : Prop := dstableL p (ctxOf p [rootFrame]) false ds = true
 
 /-- the hypotheses on the builder configuration: string containers are text classes, the newline is in ASCII_SPACES,
@@ -352,8 +352,8 @@ example : Representable livePCfg minimalHtml (normaliseL livePCfg minimalHtml de
 def liveEnv : FmtEnv :=
   ⟨registryOf, ctorDefaults,
    fun k => if k = 0 then none else if k = 1 then some substXml
-            else if k = 2 then some (BS.Entities.substHtml BS.Gen.htmlTable)
-            else some (BS.Entities.substHtml5 BS.Gen.htmlTable)⟩
+            else if k = 2 then some (BS.Entities.substHtml BS.Gen.C09.htmlTable)
+            else some (BS.Entities.substHtml5 BS.Gen.C09.htmlTable)⟩
 
 /-- `_is_xml` walks up the parent chain to the first `known_xml` that is not `None`; a root without one answers with
     its `is_xml` attribute (default False) -/
@@ -428,13 +428,13 @@ theorem class_table_live : ∀ c, liveClsInfo c = assumedMarkup c := by
 
 /-- this model's `substitute_xml` and `quoted_attribute_value` are C09's (over the live `CHARACTER_TO_XML_ENTITY`) -/
 theorem subst_quote_are_c09 :
-    (∀ s, substXml s = BS.Entities.substXml BS.Gen.xmlTable s) ∧ (∀ v, quoteAttr v = BS.Entities.quoteAttr v) :=
+    (∀ s, substXml s = BS.Entities.substXml BS.Gen.C09.xmlTable s) ∧ (∀ v, quoteAttr v = BS.Entities.quoteAttr v) :=
   ⟨substXml_eq_c09, quoteAttr_eq_c09⟩
 
 /-- C09's readers: `readText` = html.parser (convert_charrefs=False) + bs4's handle_entityref/handle_charref on tag-free
     character data; `readAttr` = quote stripping + `html.unescape` — over the generated entity tables -/
 def c09Reader (late : Bool) : Reader :=
-  ⟨BS.Reader.readText BS.Gen.htmlTable late 0, BS.Reader.readAttr BS.Gen.htmlTable⟩
+  ⟨BS.Reader.readText BS.Gen.C09.htmlTable late 0, BS.Reader.readAttr BS.Gen.C09.htmlTable⟩
 
 /-- `substitute_xml` is undone by the readers, for every string (C09, over the live tables) -/
 theorem minimal_reader_laws (late : Bool) (vp : PStr) (cd : List PStr) (eb : Bool) :
@@ -449,7 +449,7 @@ theorem minimal_reader_laws (late : Bool) (vp : PStr) (cd : List PStr) (eb : Boo
 
 /-- `substitute_html` is undone by the readers, for every string (C09, over the live tables) -/
 theorem html_reader_laws (late : Bool) (vp : PStr) (cd : List PStr) (eb : Bool) :
-    ReaderLaws (c09Reader late) ⟨some (BS.Entities.substHtml BS.Gen.htmlTable), vp, cd, eb⟩ :=
+    ReaderLaws (c09Reader late) ⟨some (BS.Entities.substHtml BS.Gen.C09.htmlTable), vp, cd, eb⟩ :=
   ⟨_, rfl,
    fun s => BS.Props.C09.html_text_roundtrip _ BS.Props.C09.tblOK_live late s,
    fun v => by
@@ -479,7 +479,7 @@ theorem reparse_roundtrip_registry (x late : Bool) (k : PStr) (hk : k = ofS "min
       simp only [formatterForName, liveEnv] at this ⊢
       rw [this]; rfl
     · intro ds h; exact reparse_roundtrip_rd _ _ _ (minimal_reader_laws late _ _ _) ds h
-  · refine ⟨⟨some (BS.Entities.substHtml BS.Gen.htmlTable), [47], if x then [] else htmlCdataTags, false⟩, ?_,
+  · refine ⟨⟨some (BS.Entities.substHtml BS.Gen.C09.htmlTable), [47], if x then [] else htmlCdataTags, false⟩, ?_,
       html_reader_laws late _ _ _, ?_⟩
     · have := registry_lookup_live.2.1 x
       simp only [formatterForName, liveEnv] at this ⊢
